@@ -243,13 +243,32 @@ where
     let ctx = Ctx { prop: prop.to_string(), tier: Tier::Quick, seed: util::mix(seed, "worker", shard), threads: 1 };
     let mut rep = Report::new("");
     let out = std::io::stdout();
+    // CPU-time watchdog: a case that burns more than the limit without returning is reported by the
+    // parent as an unbounded loop. CPU time (not wall clock) is load independent; ordinary cases take
+    // milliseconds, so the limit is 4-5 orders of magnitude above them.
+    static CASE_START_MS: std::sync::atomic::AtomicU64 = std::sync::atomic::AtomicU64::new(0);
+    let limit_ms: u64 = std::env::var("VERIF_CPU_LIMIT").ok().and_then(|s| s.parse::<u64>().ok()).unwrap_or(60) * 1000;
+    std::thread::spawn(move || loop {
+        std::thread::sleep(std::time::Duration::from_millis(250));
+        let st = CASE_START_MS.load(Ordering::Relaxed);
+        if st != 0 {
+            let now = process_cpu_ms();
+            if now.saturating_sub(st) > limit_ms {
+                println!("T {}", (now - st) / 1000);
+                std::process::exit(3);
+            }
+        }
+    });
     let logged = |c: &T, st: &mut Stats| -> Result<(), String> {
         {
             let mut o = out.lock();
             let _ = writeln!(o, "C {}", serde_json::to_string(c).unwrap_or_default());
             let _ = o.flush();
         }
-        oracle(c, st)
+        CASE_START_MS.store(process_cpu_ms().max(1), Ordering::Relaxed);
+        let r = oracle(c, st);
+        CASE_START_MS.store(0, Ordering::Relaxed);
+        r
     };
     for (stage, n) in stages {
         explore_with_stack(&mut rep, &ctx, stage, *n, || strat(stage), &logged, stack);
@@ -265,6 +284,12 @@ where
     let mut o = out.lock();
     let _ = writeln!(o, "R {}", serde_json::to_string(&r).unwrap());
     0
+}
+
+pub fn process_cpu_ms() -> u64 {
+    let mut ts = libc::timespec { tv_sec: 0, tv_nsec: 0 };
+    unsafe { libc::clock_gettime(libc::CLOCK_PROCESS_CPUTIME_ID, &mut ts) };
+    ts.tv_sec as u64 * 1000 + ts.tv_nsec as u64 / 1_000_000
 }
 
 /// Parent side: spawn `workers` processes `<exe> worker <id> <seed> <shard> <args...>`, merge their
@@ -293,11 +318,14 @@ pub fn workers_collect(rep: &mut Report, ctx: &Ctx, stage: &str, worker_id: &str
         let text = String::from_utf8_lossy(&out.stdout);
         let mut last_case: Option<&str> = None;
         let mut report: Option<Value> = None;
+        let mut cpu_timeout: Option<&str> = None;
         for l in text.lines() {
             if let Some(c) = l.strip_prefix("C ") {
                 last_case = Some(c);
             } else if let Some(r) = l.strip_prefix("R ") {
                 report = serde_json::from_str(r).ok();
+            } else if let Some(t) = l.strip_prefix("T ") {
+                cpu_timeout = Some(t);
             }
         }
         match report {
@@ -334,7 +362,11 @@ pub fn workers_collect(rep: &mut Report, ctx: &Ctx, stage: &str, worker_id: &str
                 };
                 let case: Value = last_case.and_then(|c| serde_json::from_str(c).ok()).unwrap_or(Value::Null);
                 if failure.is_none() {
-                    failure = Some(Failure { stage: stage.to_string(), what: format!("the worker process died with {how} while executing this case"), case });
+                    let what = match cpu_timeout {
+                        Some(t) => format!("the operation did not return after {t} s of CPU time on this case (unbounded loop; ordinary cases take milliseconds)"),
+                        None => format!("the worker process died with {how} while executing this case"),
+                    };
+                    failure = Some(Failure { stage: stage.to_string(), what, case });
                 }
             }
         }
@@ -349,7 +381,25 @@ pub fn replay_in_child(id: &str, stage: &str, case: &Value) -> Result<(), String
     let tmp = format!("/verif/.work/{}-replay-{}.json", id, std::process::id());
     std::fs::create_dir_all("/verif/.work").ok();
     std::fs::write(&tmp, serde_json::json!({"stage": stage, "case": case}).to_string()).map_err(|e| format!("HARNESS: {e}"))?;
-    let o = std::process::Command::new(exe).args([id, "--replay", &tmp]).env("VERIF_INPROC", "1").output().map_err(|e| format!("HARNESS: {e}"))?;
+    let mut child = std::process::Command::new(exe).args([id, "--replay", &tmp]).env("VERIF_INPROC", "1").stdout(std::process::Stdio::piped()).stderr(std::process::Stdio::null()).spawn().map_err(|e| format!("HARNESS: {e}"))?;
+    // wall-clock bound for a replay: generous (a replayed case takes milliseconds)
+    let t0 = Instant::now();
+    loop {
+        match child.try_wait() {
+            Ok(Some(_)) => break,
+            Ok(None) => {
+                if t0.elapsed().as_secs() > 180 {
+                    let _ = child.kill();
+                    let _ = child.wait();
+                    std::fs::remove_file(&tmp).ok();
+                    return Err("the operation did not return within 180 s on this case (unbounded loop)".into());
+                }
+                std::thread::sleep(std::time::Duration::from_millis(50));
+            }
+            Err(e) => return Err(format!("HARNESS: {e}")),
+        }
+    }
+    let o = child.wait_with_output().map_err(|e| format!("HARNESS: {e}"))?;
     std::fs::remove_file(&tmp).ok();
     use std::os::unix::process::ExitStatusExt;
     if let Some(s) = o.status.signal() {
